@@ -1,15 +1,15 @@
-\* MODULE MCplain2q
+\* MODULE MCadv
 SPECIFICATION Spec
 CONSTANTS
   Procs <- MCProcs
   Prog <- MCProg
-  Cap = 100
-  Maint = "never"
-  DirsExist = TRUE
+  Cap = 1
+  Maint = "always"
+  DirsExist = FALSE
   Pre <- MCPre
   WriteFallback = FALSE
   CrashBudget = 0
-  AdvBudget = 0
+  AdvBudget = 1
   Debris <- NoDebris
 VIEW View
 INVARIANTS InvDirValid InvDebris InvHandle InvNoErr
